@@ -149,6 +149,12 @@ func SimpleNames(t *rapid.T, n int, prefix string) []string {
 			base[i] = prefix + "t" + strconv.Itoa(i)
 		}
 	}
+	// one name list in twelve is made of labels that look like numbers, several of them equal as
+	// numbers and different as text ("1", "01", "1.0", "1e0", "10", "2" ...): legal tip names that
+	// "natural" or numeric orderings tie or reorder
+	if n <= len(numericNames) && prefix == "" && rapid.IntRange(0, 11).Draw(t, "numericnames") == 7 {
+		base = append(base[:0], numericNames[:n]...)
+	}
 	// one name list in ten carries '%' followed by a letter that fmt reads as a verb (sample
 	// names such as "s_10%", annotations such as height_95%_HPD are common): text that is
 	// printed through a format string shows it
@@ -594,6 +600,8 @@ func Describe(root *ref.Node) string {
 
 // wideDraw selects interior values: rapid draws the bounds of a range far more often than
 // 1/size, so "== 0" would select one case in ten.
+var numericNames = []string{"1", "01", "2", "10", "1.0", "02", "1e0", "001", "3", "0", "00", "10.0", "0x1", "1_", "+1", "-0", "20", "11", "011", "1.", "9", "09", "100", "0100"}
+
 func wideDraw(v int, often bool) bool {
 	return v == 29 || v == 37 || v == 11 || v == 47 || (often && v%8 == 3)
 }
